@@ -32,6 +32,10 @@ def logical_configs():
                                                                                 'qartod': {'bogus_test': {'x': 1}, 'gross_range_test': gr, 'also_bogus': {'y': 2}},
                                                                                 'argo': {'speed_test': {'suspect_threshold': 1, 'fail_threshold': 3}}},
                                                                        'sal': {'zzz': {'t': {'q': 1}}, 'qartod': {'spike_test': sp}}})]
+    # one stream, so that the bare module-mapping spelling exists too: unknown packages next to known ones (first, between, last)
+    out['unknown-module-one-stream'] = [dict(window=None, region=None, streams={'temp': collections.OrderedDict([
+        ('not_a_module', {'whatever_test': {'a': 1}}), ('qartod', {'gross_range_test': gr, 'bogus_test': {'x': 1}}),
+        ('vendor', {'t': {'q': 1}}), ('argo', {'speed_test': {'suspect_threshold': 1, 'fail_threshold': 3}}), ('zzz', {'t': {'q': 2}})])})]
     out['parameterless'] = [dict(window=None, region=None, streams={'pres': {'argo': {'pressure_increasing_test': None}}})]
     out['parameterless-mixed'] = [dict(window=None, region=None, streams={'pres': {'argo': {'pressure_increasing_test': None}, 'qartod': {'gross_range_test': gr}}})]
     out['empty-params'] = [dict(window=None, region=None, streams={'pres': {'argo': {'pressure_increasing_test': {}}}})]
